@@ -43,12 +43,21 @@ End ListOps.
 Definition W : N := 2 ^ 64.
 Definition combine_with (c a b : N) (seed v : N) : N :=
   N.lxor seed ((v + c + (N.shiftl seed a) mod W + N.shiftr seed b) mod W).
-Definition magic : N := 2654435769.   (* 0x9e3779b9 *)
-Definition shl_amt : N := 6.
-Definition shr_amt : N := 2.
-Definition combine : N -> N -> N := combine_with magic shl_amt shr_amt.
-Definition tuple_seed : N := 0.     (* hash(tuple): std::size_t seed = 0; *)
-Definition variant_seed : N := 0.   (* hash(variant): std::size_t seed = 0; *)
+(* the five numbers of the code: the literals of hash_combine_impl and the initial seeds of hash(tuple) / hash(variant).
+   The model is parametric in them; the instance in use is built from the regenerated Gen/GenHash.v (Misc/HashInst.v),
+   i.e. from what include/nitro/lang/hash.hpp says NOW *)
+Record hparams : Type := {
+  hp_magic : N;          (* 0x9e3779b9 today *)
+  hp_shl : N;            (* 6 *)
+  hp_shr : N;            (* 2 *)
+  hp_tuple_seed : N;     (* hash(tuple): std::size_t seed = 0; *)
+  hp_variant_seed : N    (* hash(variant): std::size_t seed = 0; *)
+}.
+(* admissible: every literal is a std::size_t and both shifts are below the word size (a shift by >= 64 bits is
+   undefined behaviour in the code and not what the model computes) *)
+Definition hp_ok (p : hparams) : bool :=
+  (hp_magic p <? W) && (hp_shl p <? 64) && (hp_shr p <? 64) && (hp_tuple_seed p <? W) && (hp_variant_seed p <? W).
+Definition combine (p : hparams) : N -> N -> N := combine_with (hp_magic p) (hp_shl p) (hp_shr p).
 
 Section Value.
 Variable leaf : Type.
@@ -62,6 +71,7 @@ Inductive value : Type :=
 | VObj (l : list value)            (* a tuple_operators<T> type: its as_tuple() *)
 | VValueless.                      (* a std::variant that is valueless_by_exception() *)
 
+Variable hp : hparams.                         (* the constants of the code *)
 Variable h : leaf -> N.                        (* std::hash<T>()(t) *)
 Variables leqb lltb : leaf -> leaf -> bool.     (* == and < of the leaf type *)
 
@@ -69,16 +79,16 @@ Variables leqb lltb : leaf -> leaf -> bool.     (* == and < of the leaf type *)
 Fixpoint hash (x : value) : N :=
   match x with
   | VLeaf a => h a mod W                                            (* std::hash, a size_t *)
-  | VTuple l => fold_left (fun seed v => combine seed (hash v)) l tuple_seed   (* hash_combine_tuple<0> *)
-  | VPair a b => combine (hash a) (hash b)                          (* seed = hash(first); combine second *)
-  | VVariant _ v => combine variant_seed (hash v)                   (* the active alternative; the index is not hashed *)
+  | VTuple l => fold_left (fun seed v => combine hp seed (hash v)) l (hp_tuple_seed hp)   (* hash_combine_tuple<0> *)
+  | VPair a b => combine hp (hash a) (hash b)                          (* seed = hash(first); combine second *)
+  | VVariant _ v => combine hp (hp_variant_seed hp) (hash v)                   (* the active alternative; the index is not hashed *)
   | VPtr v => hash v                                                (* hash of the pointee *)
-  | VObj l => fold_left (fun seed v => combine seed (hash v)) l tuple_seed   (* t.hash() = hash(as_tuple(t)) *)
-  | VValueless => variant_seed      (* no get_if<I> finds an alternative: the seed is returned as it is *)
+  | VObj l => fold_left (fun seed v => combine hp seed (hash v)) l (hp_tuple_seed hp)   (* t.hash() = hash(as_tuple(t)) *)
+  | VValueless => hp_variant_seed hp      (* no get_if<I> finds an alternative: the seed is returned as it is *)
   end.
 
 (* running seed of hash_combine_tuple after the components in l, started from `seed` *)
-Definition fold_seed (seed : N) (l : list value) : N := fold_left (fun s v => combine s (hash v)) l seed.
+Definition fold_seed (seed : N) (l : list value) : N := fold_left (fun s v => combine hp s (hash v)) l seed.
 
 (* operator== as the standard library defines it on each shape *)
 Fixpoint veqb (x y : value) : bool :=
